@@ -48,7 +48,10 @@ def one(name):
 
 
 if __name__ == '__main__':
-    names = sorted(n for n in os.listdir(SEEDED) if os.path.isfile(os.path.join(SEEDED, n, 'patch.diff')) and not n.startswith('V'))
+    def is_seed(n):
+        mp = os.path.join(SEEDED, n, 'meta.json')
+        return os.path.isfile(os.path.join(SEEDED, n, 'patch.diff')) and os.path.isfile(mp) and json.load(open(mp)).get('kind') != 'variant'
+    names = sorted(n for n in os.listdir(SEEDED) if is_seed(n))
     with ProcessPoolExecutor(max_workers=16) as ex:
         res = list(ex.map(one, names))
     miss = 0
